@@ -1,6 +1,34 @@
 """C01 — caches never change what a collector's own filter decides."""
 from checklib.main import Stream
 from checks import coregen
+import checklib.main as M
+
+def extra(tier, seed, rng, res, broken):
+    """first hits of a callsite on one thread while another creates a collector that answers differently (and a second thread's
+    first hit of another callsite): real threads under every schedule with few preemptions (yield hooks), the scenarios and the
+    judge being C04's — at quiescence every live collector receives exactly what its own filter accepts"""
+    from checks import C04 as _c04
+    N = 'n' * 30
+    cases = []
+    for cs in (0, 13):
+        A = ''.join('a' if i == cs else 'n' for i in range(30))
+        base = 'pre: new 20 %sh- | @20 hit %d | new 1 %sh%d' % (N, cs, A, _c04.LEVEL_OF(cs))
+        cases += [base + ' ;; ' + s for s in _c04.preemption_schedules(2, [8, 4], 2 if (tier == 'quick' and not broken) else 3)]
+    cases += [_c04.gen_scenario(rng) for _ in range(40 if (tier == 'quick' and not broken) else 600)]
+    outs, err = M.run_per_process([M.bin_path('h_race')], cases, timeout=30)
+    if err:
+        res.errors.append('race stream: %s' % err); return
+    verdicts, err = M.driver('C04', 'judge', [c + ' => ' + o for c, o in zip(cases, outs)])
+    if err:
+        res.errors.append('race judge: %s' % err); return
+    hard = []; soft = []
+    for c, o, v in zip(cases, outs, verdicts):
+        res.evaluations += 1
+        res.hist['race first-hit'] = res.hist.get('race first-hit', 0) + 1
+        if 'register:computed' in o and ('dispatch:enter' in o or 'rebuild:enter' in o): res.nontrivial.add('race ' + c)
+        if v != 'ok':
+            (hard if ('stranded' in v or 'wrong-delivery' in v or 'DEADLOCK' in v or 'PANIC' in v) else soft).append(('race', c, o, 'judge ' + v))
+    res.spec_failures.extend(hard if hard else soft)
 
 def gen(rng, tier):
     n = 150 if tier == 'quick' else 3000
@@ -23,16 +51,21 @@ PROPERTY = {
                 'emitting thread\'s current collector iff level <= STATIC and that collector\'s own filter accepts the callsite — proved from an invariant '
                 '(every cached interest is the Interest::and fold over a basis containing every live collector; MAX_LEVEL bounds every live hint). '
                 'The model is hand-written from callsite.rs/lib.rs/macros.rs and tied to the code by running generated histories on the real crates '
-                '(one process per history) against the compiled model and against the cache-free specification.',
+                '(one process per history) against the compiled model and against the cache-free specification. Several threads: the soundness of a cached interest while first hits race with collector creation rests on '
+                'the lock discipline of callsite::register — extracted on every run (registration_lock_discipline) — and is C04\'s transition-system theorem restated (racing_first_hit_sound); real threads run the first-hit-vs-new-collector '
+                'scenario under every schedule with few preemptions and generated race scenarios, judged at quiescence.',
         'note': 'Trusted: Lean kernel; axioms propext/Classical.choice/Quot.sound; the model is sequential (one op at a time; races are C04); '
                 'collectors are self-consistent by construction (hint bounds every not-never callsite); emissions from inside collector callbacks are '
                 'outside the quantifier; Arc/Weak modelled as "handle held or referenced by a scope/global".',
         'technique': 'Lean 4 proof (state invariant + induction over histories) of a hand-written model, correspondence-checked against the real crates',
     },
-    'lean_module': 'TracingModel.Props.C01',
+    'lean_module': 'TracingModel.Props.C01R',
+    'leanchecker_modules': ['TracingModel.Props.C01'],
+    'extra_bins': ['h_race'],
     'namespace': 'C01',
-    'units': ['MacroGuards'],
-    'required_theorems': ['C01.delivery_iff', 'C01.inv_reachable', 'C01.never_suppresses', 'C01.never_causes', 'C01.macro_guard_shape'],
+    'units': ['MacroGuards', 'RegistryLocks'],
+    'required_theorems': ['C01.delivery_iff', 'C01.inv_reachable', 'C01.never_suppresses', 'C01.never_causes', 'C01.macro_guard_shape',
+                          'C01.registration_lock_discipline', 'C01.racing_first_hit_sound'],
     'streams': [Stream('hist', 'h_core', gen=gen, per_process=True, nontrivial=nontrivial, spec_mode='spec',
                        canon=lambda s: s)],
     'rule': 'one case = one history (40-260 ops) run in a fresh process: <=6 collectors with generated self-consistent filters (static/dynamic/mixed, '
